@@ -454,8 +454,14 @@ pub fn main(args: &Args) {
                 }
             }
         }
-        // (2) all compositions of the segment alphabet to the given depth, each shard a slice
-        let n = SEGS.len();
+        // (2) all compositions of the segment alphabet to the given depth, each shard a slice.
+        // Two segments are absolute file-system paths (without their leading slash): that of a canary file and of a
+        // world-readable system file; after an empty segment they spell `//<absolute path>`.
+        let abs_canary = lab.tree.base.join("canary.txt").to_str().unwrap().trim_start_matches('/').to_string();
+        let mut alphabet: Vec<&str> = SEGS.to_vec();
+        alphabet.push(&abs_canary);
+        alphabet.push("etc/hostname");
+        let n = alphabet.len();
         let total: usize = (1..=depth).map(|d| n.pow(d as u32)).sum();
         let mut idx = 0usize;
         for d in 1..=depth {
@@ -467,7 +473,7 @@ pub fn main(args: &Args) {
                 let mut x = code;
                 let mut segs = Vec::new();
                 for _ in 0..d {
-                    segs.push(SEGS[x % n]);
+                    segs.push(alphabet[x % n]);
                     x /= n;
                 }
                 let path = segs.join("/");
@@ -492,7 +498,7 @@ pub fn main(args: &Args) {
         // (3) depth-5 sample and random long compositions
         for _ in 0..(if thorough { 400_000 } else { 20_000 }) / nsh {
             let d = rng.urange(4, 6);
-            let path: Vec<&str> = (0..d).map(|_| *rng.pick(&SEGS)).collect();
+            let path: Vec<&str> = (0..d).map(|_| *rng.pick(&alphabet[..])).collect();
             let path = path.join("/");
             let h = *rng.pick(&handlers);
             let route = if h == Handler::ServeAsFilePath { "/*" } else { *rng.pick(&routes) };
@@ -503,6 +509,6 @@ pub fn main(args: &Args) {
         r
     });
     let total = Report::merge_all(reports);
-    let rule = format!("per shard a generated tree (nested dirs, index.html / index.htm / both / none, names with blanks, unicode, %, ?, #, +, multi-dot, leading dot, trailing dot, upper-case extension, `..` and `:` inside names) with uniquely tagged contents and four canary files outside the root; (1) every file requested by its path (raw-safe and fully percent-encoded spelling) through serve_dir, directory_handler (cache off/on) under 4 route prefixes and literally through serve_as_file_path, every directory with and without slash; (2) all compositions of {} path segments ({:?} ...) to depth {} (each also with a trailing slash one time in three) through all three handlers; (3) random compositions of depth 4..6. distinct = distinct paths; non-trivial = every composed path (each contains at least one traversal, encoding or lookup decision)", SEGS.len(), &SEGS[4..12], depth);
+    let rule = format!("per shard a generated tree (nested dirs, index.html / index.htm / both / none, names with blanks, unicode, %, ?, #, +, multi-dot, leading dot, trailing dot, upper-case extension, `..` and `:` inside names) with uniquely tagged contents and four canary files outside the root; (1) every file requested by its path (raw-safe and fully percent-encoded spelling) through serve_dir, directory_handler (cache off/on) under 4 route prefixes and literally through serve_as_file_path, every directory with and without slash; (2) all compositions of {} path segments ({:?} ... plus two absolute file-system paths: a canary's and /etc/hostname's) to depth {} (each also with a trailing slash one time in three) through all three handlers; (3) random compositions of depth 4..6. distinct = distinct paths; non-trivial = every composed path (each contains at least one traversal, encoding or lookup decision)", SEGS.len() + 2, &SEGS[4..12], depth);
     total.write(out, &rule, Some(true), &["symbolic links are not generated (an administrator-placed link is outside the property)", "for upper-case spellings of known extensions and for extension-less files either the typed or the generic Content-Type is accepted", "exhaustive refers to the segment compositions up to the stated depth"]);
 }
